@@ -885,19 +885,16 @@ Proof.
   intros dm qs Hv Hk. unfold query_valid in Hv. apply andb_prop in Hv. destruct Hv as [Hv Hnd].
   destruct (query_valid_resolves dm qs [] Hv Hnd) as (cs & Hcs); [intros k []|].
   unfold query_outcome. cbn [known_C14] in Hk. rewrite Hcs in *.
-  apply app_eq_nil in Hk. destruct Hk as [H3 Hk]. apply app_eq_nil in Hk. destruct Hk as [H4 Hk].
   apply app_eq_nil in Hk. destruct Hk as [H5 H6].
-  apply flag_nil in H3, H4, H5, H6.
+  apply flag_nil in H5, H6.
   replace (forallb entity_executes cs) with true; [reflexivity|]. symmetry. apply forallb_forall. intros c Hc.
-  unfold entity_executes.
-  rewrite (entity_wf c (existsb_false_forall _ _ _ H3 c Hc) (existsb_false_forall _ _ _ H4 c Hc)).
+  unfold entity_executes. rewrite (entity_wf c).
   pose proof (existsb_false_forall _ _ _ H5 c Hc) as E5. pose proof (existsb_false_forall _ _ _ H6 c Hc) as E6.
   unfold k5_entity in E5. unfold k6_entity in E6. apply Bool.negb_false_iff in E5, E6. rewrite E5, E6. reflexivity.
 Qed.
 
 (* ------------------------------------------------------------------------------------------ *)
-(** * statement size: parentheses pair up (outside class 4), SELECTs are linear in the request
-      (outside class 7) *)
+(** * statement size: parentheses pair up, SELECTs are linear in the request (outside class 7) *)
 
 Definition sel3 (x : c3) : N := fst (fst x).
 Definition lp3 (x : c3) : N := snd (fst x).
@@ -948,20 +945,20 @@ Lemma counts_sub_eq : forall key arr nl subs,
   ((if arr then c3_add (1, 3, 3)%N body else c3_add (0, 1, 1)%N body), (if nl then (0, 0, 0)%N else c3_add (0, 1, 1)%N body)).
 Proof. reflexivity. Qed.
 
-Theorem counts_parens : forall c, has_json_default c = false ->
+Theorem counts_parens : forall c,
   lp3 (fst (counts c)) = rp3 (fst (counts c)) /\ lp3 (snd (counts c)) = rp3 (snd (counts c)).
 Proof.
-  induction c as [s b d|d|key arr nl subs IH] using cfield_ind'; intros Hj.
+  induction c as [s b d|d|key arr nl subs IH] using cfield_ind'.
   - destruct s, b, d; cbn; auto.
-  - cbn [has_json_default] in Hj. subst. cbn. auto.
-  - cbn [has_json_default] in Hj. rewrite counts_sub_eq. cbv zeta.
+  - destruct d; cbn; auto.
+  - rewrite counts_sub_eq. cbv zeta.
     set (A := c3_sum (map fst (map counts subs))). set (B := c3_sum (map snd (map counts subs))).
     assert (HA : lp3 A = rp3 A).
     { unfold A. destruct (c3_sum_proj (map fst (map counts subs))) as (_ & H2 & H3). rewrite H2, H3, !map_map.
-      apply sumN_ext. intros x Hx. rewrite Forall_forall in IH. apply (IH x Hx (existsb_false_forall _ _ _ Hj x Hx)). }
+      apply sumN_ext. intros x Hx. rewrite Forall_forall in IH. apply (IH x Hx). }
     assert (HB : lp3 B = rp3 B).
     { unfold B. destruct (c3_sum_proj (map snd (map counts subs))) as (_ & H2 & H3). rewrite H2, H3, !map_map.
-      apply sumN_ext. intros x Hx. rewrite Forall_forall in IH. apply (IH x Hx (existsb_false_forall _ _ _ Hj x Hx)). }
+      apply sumN_ext. intros x Hx. rewrite Forall_forall in IH. apply (IH x Hx). }
     assert (Hbody : lp3 (c3_add (1, 1, 1)%N (c3_add A B)) = rp3 (c3_add (1, 1, 1)%N (c3_add A B))).
     { destruct (c3_add_proj (1, 1, 1)%N (c3_add A B)) as (_ & H2 & H3). destruct (c3_add_proj A B) as (_ & H4 & H5).
       rewrite H2, H3, H4, H5, HA, HB. reflexivity. }
@@ -1064,7 +1061,7 @@ Qed.
 
 Theorem size_spec : forall dm q ce,
   resolve_entity dm q = Some ce ->
-  (k4_entity ce = false -> lp3 (counts_entity ce) = rp3 (counts_entity ce)) /\
+  lp3 (counts_entity ce) = rp3 (counts_entity ce) /\
   (k7_entity ce = false -> (sel3 (counts_entity ce) <= select_bound q)%N).
 Proof.
   intros dm q ce Hr. unfold counts_entity.
@@ -1073,11 +1070,11 @@ Proof.
   destruct (c3_sum_proj (map fst (map counts (ce_fields ce)))) as (S1 & S2 & S3).
   destruct (c3_sum_proj (map snd (map counts (ce_fields ce)))) as (T1 & T2 & T3).
   split.
-  - intro Hk. unfold k4_entity in Hk. rewrite H2, H3, H5, H6. unfold A, B. rewrite S2, S3, T2, T3, !map_map.
+  - rewrite H2, H3, H5, H6. unfold A, B. rewrite S2, S3, T2, T3, !map_map.
     rewrite (sumN_ext _ (fun x => lp3 (fst (counts x))) (fun x => rp3 (fst (counts x)))).
-    2:{ intros x Hx. apply (counts_parens x (existsb_false_forall _ _ _ Hk x Hx)). }
+    2:{ intros x Hx. apply (counts_parens x). }
     rewrite (sumN_ext _ (fun x => lp3 (snd (counts x))) (fun x => rp3 (snd (counts x)))).
-    2:{ intros x Hx. apply (counts_parens x (existsb_false_forall _ _ _ Hk x Hx)). }
+    2:{ intros x Hx. apply (counts_parens x). }
     reflexivity.
   - intro Hk. unfold k7_entity in Hk. rewrite H1, H4. unfold A, B. rewrite S1, T1, !map_map. cbn [sel3 fst].
     assert (Hsum : (sumN (map (fun x => sel3 (fst (counts x))) (ce_fields ce)) + sumN (map (fun x => sel3 (snd (counts x))) (ce_fields ce))
@@ -1114,45 +1111,35 @@ Qed.
 Lemma default_parallelism_pos : default_parallelism <> 0%N.
 Proof. discriminate. Qed.
 
-Lemma mutation_step_ok : forall m, k1_mutation m = false ->
+Lemma mutation_step_ok : forall m,
   mutate_outcome m <> OPanic /\ (mutation_valid m = true -> mutate_outcome m = OOk).
-Proof.
-  intros m Hk. split.
-  - intro Hp. rewrite (mutate_panics_only_in_k1 m Hp) in Hk. discriminate.
-  - intro Hv. apply valid_mutation_executes; assumption.
-Qed.
+Proof. intros m. split; [apply mutate_never_panics|apply valid_mutation_executes]. Qed.
 
-Lemma row_step_ok : forall r, k2_row r = false -> verify_row r <> OPanic /\ (false = true -> verify_row r = OOk).
-Proof.
-  intros r Hk. split; [|discriminate]. intro Hp. rewrite (verify_row_panics_only_in_k2 r Hp) in Hk. discriminate.
-Qed.
+Lemma row_step_ok : forall r, verify_row r <> OPanic /\ (false = true -> verify_row r = OOk).
+Proof. intros r. split; [apply verify_row_never_panics|discriminate]. Qed.
 
 Theorem run_spec_outside_known : forall c, known_C14 c = [] -> spec_C14 c (run_C14 c) = true.
 Proof.
   intros c Hk. destruct c as [m|ms|k pok|r|rs|dm qs|dm q|s]; cbn [known_C14 spec_C14 run_C14] in *.
-  - apply flag_nil in Hk.
-    apply (pool_run_ok [mutation_valid m] [mutate_outcome m] _ default_parallelism_pos).
-    constructor; [apply mutation_step_ok; exact Hk|constructor].
-  - apply flag_nil in Hk.
-    apply (pool_run_ok (map mutation_valid ms) (map mutate_outcome ms) _ default_parallelism_pos).
-    apply Forall2_map_same. intros m Hm. apply mutation_step_ok. apply (existsb_false_forall _ _ _ Hk m Hm).
-  - apply flag_nil in Hk. destruct k as [|b k]; [discriminate|].
-    destruct (import_key (b :: k) pok) eqn:E; cbn [outcome_code].
+  - apply (pool_run_ok [mutation_valid m] [mutate_outcome m] _ default_parallelism_pos).
+    constructor; [apply mutation_step_ok|constructor].
+  - apply (pool_run_ok (map mutation_valid ms) (map mutate_outcome ms) _ default_parallelism_pos).
+    apply Forall2_map_same. intros m Hm. apply mutation_step_ok.
+  - destruct (import_key k pok) eqn:E; cbn [outcome_code].
     + reflexivity.
-    + destruct (key_wellformed (b :: k) pok) eqn:Ew; [|reflexivity].
+    + destruct (key_wellformed k pok) eqn:Ew; [|reflexivity].
       rewrite (key_wellformed_imports _ _ Ew) in E. discriminate.
-    + apply import_key_panics_iff in E. discriminate.
-  - apply flag_nil in Hk. destruct (verify_row r) eqn:E; cbn [outcome_code]; try reflexivity.
-    rewrite (verify_row_panics_only_in_k2 r E) in Hk. discriminate.
-  - apply flag_nil in Hk.
-    apply (pool_run_ok (map (fun _ => false) rs) (map verify_row rs) _ default_parallelism_pos).
-    apply Forall2_map_same. intros r Hr. apply row_step_ok. apply (existsb_false_forall _ _ _ Hk r Hr).
+    + exfalso. exact (import_key_never_panics _ _ E).
+  - destruct (verify_row r) eqn:E; cbn [outcome_code]; try reflexivity.
+    exfalso. exact (verify_row_never_panics _ E).
+  - apply (pool_run_ok (map (fun _ => false) rs) (map verify_row rs) _ default_parallelism_pos).
+    apply Forall2_map_same. intros r Hr. apply row_step_ok.
   - destruct (query_valid dm qs) eqn:Ev.
     + rewrite (valid_query_executes dm qs Ev); [reflexivity|]. cbn [known_C14]. exact Hk.
     + unfold query_outcome. destruct (resolve_query dm qs []); [destruct (forallb entity_executes l)|]; reflexivity.
   - destruct (resolve_entity dm q) as [ce|] eqn:Er.
-    + apply app_eq_nil in Hk. destruct Hk as [H4 H7]. apply flag_nil in H4, H7.
-      destruct (size_spec dm q ce Er) as (Hp & Hs). specialize (Hp H4). specialize (Hs H7).
+    + apply flag_nil in Hk.
+      destruct (size_spec dm q ce Er) as (Hp & Hs). specialize (Hs Hk).
       destruct (counts_entity ce) as [[a b] d] eqn:Ec. cbn [c3_list]. cbn [sel3 lp3 rp3 fst snd] in Hp, Hs.
       cbn [Z.eqb]. subst d. unfold zn. rewrite Z.eqb_refl. cbn [andb]. apply Z.leb_le. lia.
     + cbn [Z.eqb]. destruct (entity_valid dm q) eqn:Ev; [|reflexivity].
@@ -1161,7 +1148,8 @@ Proof.
 Qed.
 
 (* ------------------------------------------------------------------------------------------ *)
-(** * refutations: closed witnesses of what the unchanged code does *)
+(** * witnesses: the inputs of the repaired classes 1-4 now satisfy the oracle; closed witnesses of
+      what the current code still does for classes 5-7 *)
 
 Definition str_json : strc := {| s_b64 := false; s_json := true; s_uid := UNot16 |}.
 Definition k1_witness : mutation :=
@@ -1170,19 +1158,6 @@ Definition k1_literal_witness : mutation :=
   {| m_decl := [(FJson, Nullable)]; m_vals := [(RField 0, MNull)]; m_params := [] |}.
 Definition ok_witness : mutation :=
   {| m_decl := [(FJson, Nullable)]; m_vals := [(RField 0, MVar 1%N)]; m_params := [(1%N, PStr str_json)] |}.
-
-Lemma params_total_refuted_w :
-  mutation_valid k1_witness = true /\ mutate_outcome k1_witness = OPanic /\
-  mutation_valid k1_literal_witness = true /\ mutate_outcome k1_literal_witness = OPanic.
-Proof. vm_compute. auto. Qed.
-
-Lemma pool_exhausted_w :
-  run_C14 (CMutSeq [k1_witness; k1_witness; k1_witness; k1_witness; ok_witness]) = [2; 1; 2; 1; 2; 1; 2; 0; 1; 0]
-  /\ mutation_valid ok_witness = true.
-Proof. vm_compute. auto. Qed.
-
-Lemma key_import_refuted_w : forall pok, import_key [] pok = OPanic.
-Proof. reflexivity. Qed.
 
 Import String.
 Definition w_dm : dmodel :=
@@ -1198,19 +1173,26 @@ Definition w_tree (fs : list rfield) : rentity :=
 Fixpoint w_chain (field : ident) (d : nat) : rfield :=
   match d with O => RNamed None (cp "name") | S k => RSub None field [w_chain field k] end.
 
+(* the former witnesses of classes 1-4, as cases of the harness: all outside the listed classes,
+   all pass the oracle *)
+Lemma repaired_witnesses_w :
+  let name := RNamed None (cp "name") in
+  run_C14 (CMut k1_witness) = [0; 1] /\ run_C14 (CMut k1_literal_witness) = [0; 1] /\
+  run_C14 (CMutSeq [k1_witness; k1_witness; k1_witness; k1_witness; ok_witness]) = [0; 1; 0; 1; 0; 1; 0; 1; 0; 1] /\
+  run_C14 (CKey [] false) = [1] /\ run_C14 (CRow (RowNode false JObject [] false 64 false)) = [1] /\
+  run_C14 (CQuery w_dm [w_q (Some (cp "group")) None [name]]) = [0; 1] /\
+  run_C14 (CQuery w_dm [w_q None None [RSub None (cp "order") [name]]]) = [0; 1] /\
+  run_C14 (CQuery w_dm [w_q (Some (cp "1a")) None [name]]) = [0; 1] /\
+  run_C14 (CQuery w_dm [w_q None None [RJson (cp "a") (cp "jd")]]) = [0; 1].
+Proof. vm_compute. repeat split; reflexivity. Qed.
+
 Lemma valid_executes_refuted_w :
   let name := RNamed None (cp "name") in
-  (* alias that is an SQL keyword; reference field named order; digit first *)
-  (query_valid w_dm [w_q (Some (cp "group")) None [name]] = true /\ query_outcome w_dm [w_q (Some (cp "group")) None [name]] = OErr) /\
-  (query_valid w_dm [w_q None None [RSub None (cp "order") [name]]] = true /\ query_outcome w_dm [w_q None None [RSub None (cp "order") [name]]] = OErr) /\
-  (query_valid w_dm [w_q (Some (cp "1a")) None [name]] = true /\ query_outcome w_dm [w_q (Some (cp "1a")) None [name]] = OErr) /\
-  (* json selector on a Json field with a default: unbalanced parenthesis *)
-  (query_valid w_dm [w_q None None [RJson (cp "a") (cp "jd")]] = true /\ query_outcome w_dm [w_q None None [RJson (cp "a") (cp "jd")]] = OErr) /\
   (* blank search text *)
   (query_valid w_dm [w_q None (Some []) [name]] = true /\ query_outcome w_dm [w_q None (Some []) [name]] = OErr) /\
   (* five array levels *)
   (query_valid w_dm [w_tree [w_chain (cp "kids") 5]] = true /\ query_outcome w_dm [w_tree [w_chain (cp "kids") 5]] = OErr) /\
-  (* and the same requests with harmless spellings / shapes execute *)
+  (* and the same requests with a word to search / one level less execute *)
   query_outcome w_dm [w_q (Some (cp "grp")) (Some (cp "word")) [name; RSub (Some (cp "o")) (cp "order") [name]]] = OOk /\
   query_outcome w_dm [w_tree [w_chain (cp "kids") 4]] = OOk.
 Proof. vm_compute. repeat split; reflexivity. Qed.
@@ -1235,12 +1217,10 @@ Proof. vm_compute. auto. Qed.
 
 (* the hypotheses of the theorems are satisfiable: cases outside every class, with every verdict *)
 Lemma nonvacuous_w :
-  known_C14 (CMut ok_witness) = [] /\ run_C14 (CMut ok_witness) = [0; 1] /\
-  known_C14 (CMutSeq [ok_witness; ok_witness]) = [] /\
-  known_C14 (CKey [1%N] true) = [] /\ run_C14 (CKey [1%N] true) = [1] /\
-  known_C14 (CRow (RowNode false JObject [1%N; 2%N] false 64 false)) = [] /\
   known_C14 (CQuery w_dm [w_q (Some (cp "grp")) None [RNamed None (cp "name"); RSub None (cp "pets") [RNamed None (cp "name")]]]) = [] /\
   query_valid w_dm [w_q (Some (cp "grp")) None [RNamed None (cp "name"); RSub None (cp "pets") [RNamed None (cp "name")]]] = true /\
+  run_C14 (CMut ok_witness) = [0; 1] /\ mutation_valid ok_witness = true /\ mutation_valid k1_witness = true /\
+  run_C14 (CKey [1%N] true) = [1] /\
   known_C14 (CQSize w_dm (w_tree [w_chain (cp "nn") 1])) = [] /\
   run_C14 (CQSize w_dm (w_tree [w_chain (cp "nn") 1])) = [1; 5; 9; 9].
 Proof. vm_compute. repeat split; reflexivity. Qed.
@@ -1248,14 +1228,24 @@ Proof. vm_compute. repeat split; reflexivity. Qed.
 (* ------------------------------------------------------------------------------------------ *)
 (** * sequences of requests against one instance *)
 
-Theorem sequences_keep_the_pool : forall ms, existsb k1_mutation ms = false ->
+Theorem sequences_keep_the_pool : forall ms,
   steps_ok (map mutation_valid ms) (pool_run default_parallelism (map mutate_outcome ms)) = true /\
   pool_live default_parallelism (map mutate_outcome ms) = default_parallelism.
 Proof.
-  intros ms Hk. apply (pool_run_ok (map mutation_valid ms) (map mutate_outcome ms) _ default_parallelism_pos).
-  apply Forall2_map_same. intros m Hm. apply mutation_step_ok. apply (existsb_false_forall _ _ _ Hk m Hm).
+  intros ms. apply (pool_run_ok (map mutation_valid ms) (map mutate_outcome ms) _ default_parallelism_pos).
+  apply Forall2_map_same. intros m Hm. apply mutation_step_ok.
 Qed.
 
+Theorem verifier_pool_kept : forall rs,
+  steps_ok (map (fun _ => false) rs) (pool_run default_parallelism (map verify_row rs)) = true /\
+  pool_live default_parallelism (map verify_row rs) = default_parallelism.
+Proof.
+  intros rs. apply (pool_run_ok (map (fun _ => false) rs) (map verify_row rs) _ default_parallelism_pos).
+  apply Forall2_map_same. intros r Hr. apply row_step_ok.
+Qed.
+
+(* what a panic would cost (the bookkeeping of the pool itself, kept as a statement about
+   pool_step: n panicking requests on n threads leave none) *)
 Theorem panics_exhaust_the_pool : forall os live,
   Forall (fun o => o = OPanic) os -> (live <= N.of_nat (List.length os))%N -> pool_live live os = 0%N.
 Proof.
